@@ -63,6 +63,27 @@ T = {
  "C16D": ("a stage's own scalar is appended to an ancestor's list", "own scalar under a key the ancestors publish as a list", "C16 quick", "missed at first: mixed-type own values added", None),
  "C17C": ("cancel flag written after the fan-out commit", "a fault / crash between the two commits", "C17 quick (E2)", "missed at first: crash points inside the cancel's own steps added; the monitor arms on the processed record as well as on the flag", None),
  "C17D": ("JumpToStage refused on status.is_complete instead of is_canceled", "jump delivered between the cancel and CompleteWorkflow", "C17 quick", "", None),
+ # wave 5
+ "C04E": ("retrieve_stage reads the tasks before the stage row", "W1 claim, W2 tasks SELECT, W1 plan commit, W2 stage SELECT: zombie re-plan", "C04 quick (E3, builder-made tasks)", "", None),
+ "C04F": ("planner adopts the persisted row version after the claim", "second worker re-claims the unplanned stage between claim and plan", "C04 quick (E3, builder-made tasks)", "", None),
+ "C07E": ("in-memory versions not restored when a transaction body fails", "fault after store_stage, one foreign commit, retry with the same object", "C07 quick (E3 x injected lock error)", "", None),
+ "C07F": ("N-of-M join tracking merges into a stale copy of the join stage", "two upstreams of a quorum join completing interleaved", "C07 quick (E3 engine pair)", "", None),
+ "C08E": ("queue schema drops the max_attempts column default", "fail to the limit, sweep, replay, fail again, sweep", "NOT DETECTED (neutralised)", "led to the discovery that the op-sequence search merged rows with different attempt limits (DESIGN 11.4) and to fix ffd7f51; with that fix the sweep no longer depends on the row's limit and this change no longer breaks the property (its own demonstration passes on the repaired tree)", None),
+ "C08F": ("lock heartbeat not stopped when the handler fails", "threaded processor, handler exception, a heartbeat tick between reschedule and redelivery", "NOT DETECTED", "outside the model: the lock-heartbeat thread is switched off in every harness (a wall-clock timer thread; trusted-base assumption in DESIGN 2.2 / 6)", None),
+ "C11E": ("mutex waiter's retry pushed inside the claim transaction that is rolled back", "two workers racing for one mutex key", "C11 quick (E3)", "", None),
+ "C11F": ("deferred-choice fast path only counts a RUNNING sibling as claimed", "winner finished, retention sweep, late StartStage", "C11 quick (E1 + retention)", "", None),
+ "C13E": ("join bookkeeping (plain store_stage, own commit) moved inside the completion transaction", "first-of / quorum join downstream, crash after that commit", "C13 quick", "missed at first: no join workloads in the crash-image set", None),
+ "C13F": ("transaction scope unbound only after deferred publication", "a synchronous subscriber that records an event in reaction", "C13 quick", "missed at first: the harness subscriber was a pure observer; a reacting subscriber was added", None),
+ "C14E": ("execute_atomic marks the source message processed only when a stage is stored", "transient failure without context update, worker death before the processor's mark", "C14 quick", "", None),
+ "C14F": ("polling result split into two transactions (mark + next poll, then context)", "crash between the two commits", "C14 quick (E2)", "missed at first: crash images of the polling / retrying deliveries added", None),
+ "C15E": ("a backward jump does not re-arm a task already marked REDIRECT", "CompleteTask(REDIRECT) before its JumpToStage", "C15 quick", "", None),
+ "C15F": ("RunTask's redirect branch does not mark its delivery processed in the transaction", "worker death before the processor's mark, redelivery before the jump", "C15 quick", "missed at first: worker death on the small loops added to the quick tier (C02 caught it as it was)", None),
+ "C18E": ("recovery treats SUSPENDED / PAUSED stages as in flight", "a second task behind the suspending one, a sweep while suspended", "C18 quick", "missed at first: multi-task gate with a sweep added", None),
+ "C18F": ("re-arming a stage drops its buffered signals", "persistent signal buffered before a forward jump re-arms the gate", "C18 quick", "missed at first: gate reached by a forward jump added", None),
+ "C19E": ("task timestamps written with COALESCE (never cleared)", "save None over a recorded timestamp", "C19 quick", "missed at first: fill-then-clear rounds added", None),
+ "C19F": ("empty-string control-flow settings read back as None", "mutex_key = ''", "C19 quick", "", None),
+ "C20E": ("malformed stageEnabled expression parsed outside the evaluator (SyntaxError)", "a syntactically broken condition", "C20 quick", "", None),
+ "C20F": ("OR-split forgets to skip the branch with a malformed condition", "one malformed condition next to a branch that activates", "C20 quick", "missed at first: the callers were only checked for not raising; the activated / skipped partition is now compared with the evaluator's verdict", None),
 }
 
 
